@@ -70,6 +70,7 @@ type Config struct {
 	App2FAHandler     bool     // the application registers After(EventTwoFactorAdded/Removed) handlers that answer the request themselves
 	MailGoroutine     bool     // leave MailNoGoroutine=false (schedule engine only)
 	SMTPMailer        bool     // use defaults.SMTPMailer (through the vsmtp shim)
+	LogMailer         bool     // use defaults.LogMailer writing into the world's mail stream (every Write is a scheduling point)
 }
 
 // Has reports whether a (pseudo) module is loaded.
